@@ -70,7 +70,10 @@ class Design:
     self.next_id = 0
     self.explicit = []                        # (block id a, block id b): U(a) < U(b), same component
     self.full_struct = set()                  # struct-typed signals whose whole value is available
+    self.allow_helpers = False                # set while an expression of a top-level block is being generated
     self.vi = {}                              # id(mux chain) -> (chain, python text): reads of a list element chosen by a signal
+    self.helpers = []                         # [(name, expr)]: @s.func helpers of the top component (pure: `return <expr>`)
+    self.fn_call = {}                         # id(expr) -> (expr, helper name): this occurrence is rendered as a call
 
   # ------------------------------------------------------------------ construction helpers
   def new_sig(self, comp, name, width, kind, stype=None):
@@ -167,8 +170,31 @@ class Design:
     self.vi[id(chain)] = (chain, txt)
     return chain
 
+  def gen_helper_call(self, w, readable):
+    """part of an expression computed by an `@s.func` helper of the top component; helpers are shared between blocks (the
+    reads of a helper belong to EVERY block that calls it).  Model side: the expression is inlined."""
+    rng = self.rng
+    rset = set(readable)
+    covered = lambda r: any(g == r[0] and lo <= r[1] and r[1] + r[2] <= lo + ww for (g, lo, ww) in rset)
+    usable = [(nm, e, ew) for (nm, e, ew) in self.helpers if ew == w and all(covered(r) for r in expr_reads(e, []))]
+    if usable and rng.random() < 0.7:
+      nm, e, _ = rng.choice(usable)
+      e = (e[0],) + e[1:]                            # a fresh tuple object: one call site
+    else:
+      if len(self.helpers) >= 4: return None
+      e = self.gen_expr(w, readable, rng.randint(0, 1))
+      if id(e) in self.vi or id(e) in self.fn_call or e[0] == 'c': return None
+      nm = f'hf{len(self.helpers)}'
+      self.helpers.append((nm, e, w))
+      e = (e[0],) + e[1:]
+    self.fn_call[id(e)] = (e, nm)
+    return e
+
   def gen_leaf(self, w, readable):
     rng = self.rng
+    if self.allow_helpers and rng.random() < 0.12:
+      e = self.gen_helper_call(w, readable)
+      if e is not None: return e
     if rng.random() < 0.2:
       e = self.gen_var_index(w, readable)
       if e is not None: return e
@@ -265,6 +291,7 @@ class Design:
   def py_expr(self, comp, e):
     k = e[0]
     if id(e) in self.vi and self.vi[id(e)][0] is e and comp == '': return self.vi[id(e)][1]
+    if id(e) in self.fn_call and self.fn_call[id(e)][0] is e and comp == '': return f'{self.fn_call[id(e)][1]}()'
     if k == 'c': return f'Bits{e[1]}({e[2]})'
     if k == 'r': return self.ref(comp, e[1:])
     if k == 'n': return f'(~{self.py_expr(comp, e[2])})'
@@ -328,6 +355,9 @@ class Design:
         if flipped: a, b, ra, rb = b, a, rb, ra
         whole = (ra[1] == 0 and ra[2] == self.sigs[ra[0]].width)     # `x.f //= y` / `x[a:b] //= y` are not valid Python for signals
         out.append(f'    {a} //= {b}' if (style == 0 and whole) else f'    connect( {a}, {b} )')
+      if comp == '':
+        for (nm, e, _) in self.helpers:
+          out += ['    @s.func', f'    def {nm}():', f'      return {self.py_expr(comp, e)}']
       for b in self.blocks:
         if b['comp'] == comp: out += self.py_block(b)
       byid = {b['id']: b for b in self.blocks}
@@ -540,6 +570,7 @@ def make_comb(d, comp):
   bid = d.new_id()
   asgs, styles = [], {}
   rng.shuffle(free)
+  d.allow_helpers = (comp == '')
   for (g, lo, w) in free[:rng.randint(1, 2)]:
     if w > 1 and rng.random() < 0.45:
       w2 = rng.randint(1, w - 1); lo += rng.choice([0, w - w2]); w = w2
@@ -551,6 +582,7 @@ def make_comb(d, comp):
     d.driven.append(t)
   for (t, _) in asgs:
     d.avail.append(t)
+  d.allow_helpers = False
   d.blocks.append({'id': bid, 'name': f'blk_{bid}', 'comp': comp, 'kind': 'comb', 'asgs': asgs, 'styles': styles})
 
 def make_ff(d, comp, regs):
@@ -574,7 +606,14 @@ def make_ff(d, comp, regs):
     if d.sigs[g].stype is not None:
       same = [('r', x[0], 0, w) for x in whole if d.sigs[x[0]].stype is d.sigs[g].stype]
       e = rng.choice(same)
-      if rng.random() < 0.5:
+      k = rng.random()
+      if k < 0.3 and d.sigs[g].comp == comp:
+        # `r <<= x` then `if c: r <<= r`: the later hold wins (the struct register keeps its value while c)
+        asgs.append(((g, 0, w), e))
+        styles[len(asgs)] = 'override'
+        asgs.append(((g, 0, w), ('m', d.gen_expr(1, [x for x in arith], 1), self_r, e)))
+        continue
+      if k < 0.65:
         e = ('m', d.gen_expr(1, [x for x in arith], 1), e, rng.choice(same)); styles[len(asgs)] = rng.choice(['ifelse', 'inline'])
       asgs.append(((g, 0, w), e))
       continue
